@@ -293,6 +293,48 @@ Section Sessions.
     induction 1 as [|c cs Hc F IH]; [constructor|].
     unfold session_requests. simpl. apply Forall_app. split; [now apply call_in_base | exact IH].
   Qed.
+  (* ---------- oras.Tag / oras.TagN ---------- *)
+
+  Lemma manifest_url_in_base s r :
+    repo_parse avail vr breg brepo s = Some r -> in_base_slot (url_manifest plain r).
+  Proof.
+    intro H. destruct (repo_parse_result_in_base avail vr breg brepo s r H) as (Hreg & Hrepo & Hne & Hv).
+    assert (Hok : ok_registry vr breg) by (split; [exact Hbreg | apply reg_clean_no; [reflexivity | now apply vr_clean]]).
+    assert (W : wf_ref avail vr r).
+    { unfold wf_ref. rewrite Hreg, Hrepo. split; [exact Hok|]. split; [exact Hbrepo | now right]. }
+    destruct (url_exact avail vr plain r vr_clean W Hne) as ((U & S & A & _) & _ & _).
+    rewrite Hreg, ?Hrepo in U. rewrite ?Hreg, ?Hrepo in S. rewrite ?Hreg in A.
+    exists [b "manifests"; r_reference r], None. rewrite (path_of_two brepo (b "manifests") (r_reference r)). auto.
+  Qed.
+
+  (* whatever source and destinations are passed to oras.Tag / oras.TagN on a Repository with a
+     valid base, and whatever the registry serves, every request stays in the base repository *)
+  Theorem oras_tag_in_base src dsts served :
+    Forall (fun mu => in_base_slot (snd mu)) (oras_tag_requests avail vr plain breg brepo src dsts served).
+  Proof.
+    unfold oras_tag_requests. destruct dsts as [|d0 dr]; [constructor|].
+    destruct (repo_parse avail vr breg brepo src) as [r|] eqn:E; [|constructor].
+    constructor; [now apply (manifest_url_in_base src)|].
+    destruct (fetch_ok avail r served); [|constructor].
+    generalize (d0 :: dr). intro l. induction l as [|dst l IH]; simpl; [constructor|].
+    destruct (repo_parse avail vr breg brepo dst) as [r2|] eqn:E2; [|constructor].
+    constructor; [now apply (manifest_url_in_base dst) | exact IH].
+  Qed.
+
+  (* ... and equivalent forms of source and destination send identical requests *)
+  Theorem oras_tag_forms_agree t dg d2 served :
+    valid_tag t = true -> valid_digest avail dg = true -> valid_tag d2 = true ->
+    oras_tag_requests avail vr plain breg brepo (t ++ [c_at] ++ dg) [breg ++ [c_slash] ++ brepo ++ [c_colon] ++ d2] served
+    = oras_tag_requests avail vr plain breg brepo dg [d2] served.
+  Proof.
+    intros Ht Hd H2.
+    assert (Hok : ok_registry vr breg) by (split; [exact Hbreg | apply reg_clean_no; [reflexivity | now apply vr_clean]]).
+    unfold oras_tag_requests, put_until_refused.
+    rewrite (repo_parse_tag_at_digest avail vr breg brepo t dg (tag_no_slash _ Ht) (tag_no_at _ Ht) Hd).
+    rewrite (repo_parse_digest avail vr breg brepo dg Hd).
+    rewrite (repo_parse_full_tag avail vr breg brepo Hok Hbrepo d2 H2).
+    rewrite (repo_parse_tag avail vr breg brepo d2 H2). reflexivity.
+  Qed.
 End Sessions.
 
 (* ---------- constructors: every Repository value the library hands out has a valid base ---------- *)
